@@ -3,11 +3,44 @@
 package vatomic
 
 import (
+	"sync"
 	"sync/atomic"
 	"unsafe"
 
 	"github.com/rs/zerolog/zzverif/vsched"
 )
+
+// PtrOps counts the atomic POINTER operations per managed goroutine (in the instrumented packages pointers are ring slots,
+// integers are indexes): players use it to tell whether a goroutine touched a slot after some moment.
+var (
+	ptrMu  sync.Mutex
+	ptrOps = map[string]int{}
+)
+
+func ptrOp() {
+	ptrMu.Lock()
+	ptrOps[vsched.Current()]++
+	ptrMu.Unlock()
+}
+
+// PtrOpsOf returns the number of pointer operations by goroutines whose name has the given prefix; ResetPtrOps clears the counts.
+func PtrOpsOf(prefix string) int {
+	ptrMu.Lock()
+	defer ptrMu.Unlock()
+	n := 0
+	for k, v := range ptrOps {
+		if len(k) >= len(prefix) && k[:len(prefix)] == prefix {
+			n += v
+		}
+	}
+	return n
+}
+
+func ResetPtrOps() {
+	ptrMu.Lock()
+	ptrOps = map[string]int{}
+	ptrMu.Unlock()
+}
 
 func AddInt32(p *int32, d int32) (r int32) {
 	vsched.Gate("at.add", nil, func() { r = atomic.AddInt32(p, d) })
@@ -51,19 +84,23 @@ func LoadUintptr(p *uintptr) (r uintptr) {
 	return
 }
 func LoadPointer(p *unsafe.Pointer) (r unsafe.Pointer) {
-	vsched.Gate("at.load", nil, func() { r = atomic.LoadPointer(p) })
+	vsched.Gate("at.load", nil, func() { ptrOp(); r = atomic.LoadPointer(p) })
 	return
 }
 
-func StoreInt32(p *int32, v int32)     { vsched.Gate("at.store", nil, func() { atomic.StoreInt32(p, v) }) }
-func StoreInt64(p *int64, v int64)     { vsched.Gate("at.store", nil, func() { atomic.StoreInt64(p, v) }) }
-func StoreUint32(p *uint32, v uint32)  { vsched.Gate("at.store", nil, func() { atomic.StoreUint32(p, v) }) }
-func StoreUint64(p *uint64, v uint64)  { vsched.Gate("at.store", nil, func() { atomic.StoreUint64(p, v) }) }
+func StoreInt32(p *int32, v int32) { vsched.Gate("at.store", nil, func() { atomic.StoreInt32(p, v) }) }
+func StoreInt64(p *int64, v int64) { vsched.Gate("at.store", nil, func() { atomic.StoreInt64(p, v) }) }
+func StoreUint32(p *uint32, v uint32) {
+	vsched.Gate("at.store", nil, func() { atomic.StoreUint32(p, v) })
+}
+func StoreUint64(p *uint64, v uint64) {
+	vsched.Gate("at.store", nil, func() { atomic.StoreUint64(p, v) })
+}
 func StoreUintptr(p *uintptr, v uintptr) {
 	vsched.Gate("at.store", nil, func() { atomic.StoreUintptr(p, v) })
 }
 func StorePointer(p *unsafe.Pointer, v unsafe.Pointer) {
-	vsched.Gate("at.store", nil, func() { atomic.StorePointer(p, v) })
+	vsched.Gate("at.store", nil, func() { ptrOp(); atomic.StorePointer(p, v) })
 }
 
 func SwapInt32(p *int32, v int32) (r int32) {
@@ -87,7 +124,7 @@ func SwapUintptr(p *uintptr, v uintptr) (r uintptr) {
 	return
 }
 func SwapPointer(p *unsafe.Pointer, v unsafe.Pointer) (r unsafe.Pointer) {
-	vsched.Gate("at.swap", nil, func() { r = atomic.SwapPointer(p, v) })
+	vsched.Gate("at.swap", nil, func() { ptrOp(); r = atomic.SwapPointer(p, v) })
 	return
 }
 
@@ -112,7 +149,7 @@ func CompareAndSwapUintptr(p *uintptr, o, n uintptr) (r bool) {
 	return
 }
 func CompareAndSwapPointer(p *unsafe.Pointer, o, n unsafe.Pointer) (r bool) {
-	vsched.Gate("at.cas", nil, func() { r = atomic.CompareAndSwapPointer(p, o, n) })
+	vsched.Gate("at.cas", nil, func() { ptrOp(); r = atomic.CompareAndSwapPointer(p, o, n) })
 	return
 }
 
